@@ -56,6 +56,15 @@ func NewSlice3(base unsafe.Pointer, eltSize, cap, i, j, k int) (s Slice) {
 // SliceAppend append elem data and returns a slice.
 func SliceAppend(src Slice, data unsafe.Pointer, num, etSize int) Slice {
 	if etSize == 0 {
+		// Zero-size elements need no storage, but the length (and, once it is
+		// exceeded, the capacity) still grows and a grown slice is not nil.
+		src.len += num
+		if src.cap < src.len {
+			src.cap = src.len
+			if src.data == nil {
+				src.data = AllocZ(0)
+			}
+		}
 		return src
 	}
 	oldLen := src.len
